@@ -84,6 +84,20 @@ class ReadOnlySource:
         raise AttributeError(name)
 
 
+class CountingBytesIO(io.BytesIO):
+    """io.BytesIO that counts the bytes its read() hands out: a decoder that re-reads or reads ahead obtains more
+    bytes than the input holds."""
+
+    returned = 0
+    nreads = 0
+
+    def read(self, *a):
+        b = super().read(*a)
+        self.returned += len(b)
+        self.nreads += 1
+        return b
+
+
 class DribbleRaw(io.RawIOBase):
     """Raw stream that hands out at most `step` bytes per readinto, like a socket."""
 
